@@ -190,3 +190,29 @@ Proof. exact ex_codes_refl. Qed.
 Example reflection_changes_stereo_fp :
   orth ZD reflZ /\ run ZD e3fp_consts 50 ex_opts (move ZD reflZ ex_t ex_mol) <> run ZD e3fp_consts 50 ex_opts ex_mol.
 Proof. exact ex_reflection_changes_stereo_fp. Qed.
+
+(* ============ an executable, axiom-free dictionary with general rotations: the canonical rationals Qc ============ *)
+From Coq Require Import Qcanon.
+From E3FP Require Import Proofs.GeomLawsQc.
+
+Theorem QcD_lawful : ringlaws QcD.
+Proof. exact QcD_laws. Qed.
+Print Assumptions QcD_lawful.
+
+Theorem fp_rigid_invariant_Qc : forall C fuel o (M : mat QcD) t m,
+  orth QcD M -> mdet QcD M = f1 QcD -> run QcD C fuel o (move QcD M t m) = run QcD C fuel o m.
+Proof. exact fp_rigid_invariant_Qc. Qed.
+Print Assumptions fp_rigid_invariant_Qc.
+
+(* a rotation that is not a signed permutation satisfies the hypotheses and the model EXECUTES on it (vm_compute) *)
+Example rot122q_is_proper_rotation : orth QcD rot122q /\ mdet QcD rot122q = f1 QcD.
+Proof. exact rot122q_orth. Qed.
+Example rational_rotation_executes :
+  state_sig (run QcD e3fp_consts 50 ex_opts (move QcD rot122q ex_tq ex_molq))
+  = state_sig (run QcD e3fp_consts 50 ex_opts ex_molq)
+  /\ exists k ids, state_sig (run QcD e3fp_consts 50 ex_opts ex_molq) = Ok (k, ids) /\ 1 <= k.
+Proof. exact rational_rotation_executes. Qed.
+Example reflection_changes_stereo_Qc :
+  state_sig (run QcD e3fp_consts 50 ex_opts (move QcD refl122q ex_tq ex_molq))
+  <> state_sig (run QcD e3fp_consts 50 ex_opts ex_molq).
+Proof. exact reflection_changes_stereo_Qc. Qed.
